@@ -164,13 +164,24 @@ theorem mem_iterateOps_decide (w : World) (hv : HostView) (r : WReq) (hfirst : w
 
 theorem mem_pendingInto (w : World) (hv : HostView) (r : WReq) (hr : r ∈ w.reqs)
     (hc : r.completed = false) (hx : r.cancelled = false)
-    (hg : ∃ n ∈ w.nodes, n.group = r.groupTo ∧ n.id ∈ w.usableIds hv) : r ∈ w.pendingInto hv := by
+    (hg : w.groupServed hv r.groupTo = true) : r ∈ w.pendingInto hv := by
   unfold World.pendingInto
   refine List.mem_filter.mpr ⟨hr, ?_⟩
-  obtain ⟨n, hn, h1, h2⟩ := hg
-  simp only [hc, hx, Bool.not_false, Bool.true_and, List.any_eq_true, Bool.and_eq_true, beq_iff_eq,
-    List.contains_iff_mem]
-  exact ⟨n, hn, h1, h2⟩
+  simp [hc, hx, hg]
+
+/-- a `decide` step of an iteration is for a request that `seen_files` let through -/
+theorem decide_of_mem_iterateOps (w : World) (hv : HostView) (x : WReq) (sr : Bool)
+    (hx : WOp.decide x sr ∈ iterateOps w hv) : x ∈ firstPerFile [] (w.pendingInto hv) ∧ sr = true := by
+  unfold iterateOps at hx
+  simp only [List.mem_append] at hx
+  rcases hx with (hx | hx) | hx
+  · obtain ⟨c, _, hc⟩ := List.mem_map.mp hx; cases hc
+  · obtain ⟨m, _, hx⟩ := List.mem_flatMap.mp hx
+    obtain ⟨id, _, hopt⟩ := List.mem_filterMap.mp hx
+    cases hf : w.copies.find? (·.id == id) <;> simp [hf] at hopt
+  · obtain ⟨y, hy, hyx⟩ := List.mem_map.mp hx
+    injection hyx with h1 h2
+    exact ⟨h1 ▸ hy, h2.symm⟩
 
 /-! ### crash prefixes (C09) -/
 
